@@ -116,29 +116,45 @@ def step (strict : Bool) (parents : Array (List Nat)) (anc : List (List Nat)) (s
       | none => .error "boot-dead"
       | some br => if !br.hib then .error "boot-awake" else .ok (s.set b { br with hib := false })) s
 
-/-- the validator: `retained` = the commits that must be analysed (the kept component) -/
-def checkPlan (strict : Bool) (parents : List (List Nat)) (retained : List Nat) (plan : List Action) : Except String Unit := do
-  let pa := parents.toArray
-  let anc := ancestors parents
-  let s ← plan.foldlM (step strict pa anc) ⟨[], [], []⟩
-  -- every retained commit analysed the right number of times, nothing else analysed
-  for c in retained do
-    let want := max 1 (nonRedundant anc (pa.getD c [])).length
-    match s.analysed.find? (·.1 = c) with
-    | some (_, k) => if strict && k ≠ want then throw "replay-count"
-    | none => throw "commit-not-analysed"
-  if s.analysed.any (fun (c, _) => !retained.contains c) then throw "foreign-commit"
-  if s.live.any (·.2.hib) then throw "left-hibernated"
-  -- single head ⇒ the smallest surviving branch has everything
+/-- number of replays the property asks for: one per non-redundant parent, one for a commit without parents -/
+def wantReplays (anc : List (List Nat)) (pa : Array (List Nat)) (c : Nat) : Nat :=
+  max 1 (nonRedundant anc (pa.getD c [])).length
+
+/-- every retained commit analysed (in strict mode: the right number of times) -/
+def analysedOK (strict : Bool) (anc : List (List Nat)) (pa : Array (List Nat)) (s : St) (c : Nat) : Bool :=
+  match s.analysed.find? (·.1 = c) with
+  | some (_, k) => !strict || k == wantReplays anc pa c
+  | none => false
+
+def minBranch (s : St) : Option Nat :=
+  (s.live.map (·.1)).foldl (fun m b => match m with | none => some b | some x => some (min x b)) none
+
+/-- single head ⇒ the smallest surviving branch has incorporated every retained commit -/
+def masterOK (pa : Array (List Nat)) (retained : List Nat) (s : St) : Bool :=
   let heads := retained.filter fun c => !(retained.any fun d => (dedup (pa.getD d [])).contains c)
   if heads.length = 1 then
-    match (s.live.map (·.1)).foldl (fun m b => match m with | none => some b | some x => some (min x b)) none with
-    | none => throw "no-branch-left"
+    match minBranch s with
+    | none => false
     | some mb =>
       match s.get mb with
-      | some br => if br.set.length ≠ retained.length then throw "master-incomplete"
-      | none => throw "no-branch-left"
-  return ()
+      | some br => br.set.length == retained.length
+      | none => false
+  else true
+
+/-- the checks after the last action -/
+def finalOK (strict : Bool) (anc : List (List Nat)) (pa : Array (List Nat)) (retained : List Nat) (s : St) : Bool :=
+  retained.all (analysedOK strict anc pa s) &&
+  !(s.analysed.any fun (c, _) => !retained.contains c) &&
+  !(s.live.any (·.2.hib)) &&
+  masterOK pa retained s
+
+/-- the validator: `retained` = the commits that must be analysed (the kept component) -/
+def checkPlan (strict : Bool) (parents : List (List Nat)) (retained : List Nat) (plan : List Action) : Except String Unit :=
+  let pa := parents.toArray
+  let anc := ancestors parents
+  match plan.foldlM (step strict pa anc) ⟨[], [], []⟩ with
+  | .error e => .error e
+  | .ok s => if finalOK strict anc pa retained s then .ok () else .error "final-state"
 
 /-- undirected neighbours of a commit in the parent graph -/
 def neighbours (parents : List (List Nat)) (c : Nat) : List Nat :=
